@@ -115,7 +115,33 @@ pub fn panic_str(k: PanicKind) -> String {
 }
 
 /// Dimension names must be `&'static str`; interned and leaked once per distinct name.
+/// Token standing for the empty dimension name `""` in the line protocol.
+pub const EMPTY_NAME: &str = "_empty_";
+
+/// Names chosen to expose code that treats dimension names other than as opaque, compared-by-text
+/// strings: the names the library uses internally ("row", "column", "r", "c", "i", "samples",
+/// "features"), names that are prefixes / substrings of one another, one-letter names, names out
+/// of alphabetical order and the empty name (written `_empty_` on the wire).
+pub const ADVERSARIAL_NAMES: [&str; 20] = [
+    "row", "rows", "column", "columns", "r", "c", "rr", "i", "j", "x", "xy", "a", "aa", "ab",
+    "b", "samples", "features", "batch", "z", EMPTY_NAME,
+];
+
+/// `k` distinct adversarial names, in an order drawn from the run's PRNG.
+pub fn adversarial_names(rng: &mut Rng, k: usize) -> Vec<&'static str> {
+    let mut pool: Vec<&str> = ADVERSARIAL_NAMES.to_vec();
+    rng.shuffle(&mut pool);
+    pool.truncate(k);
+    pool.iter().map(|n| wire_name(n)).collect()
+}
+
+/// The wire token of a name as a `&'static str` (not the name itself: see `intern`).
+pub fn wire_name(name: &str) -> &'static str {
+    ADVERSARIAL_NAMES.iter().copied().find(|n| *n == name).unwrap_or_else(|| Box::leak(name.to_string().into_boxed_str()))
+}
+
 pub fn intern(name: &str) -> &'static str {
+    let name = if name == EMPTY_NAME { "" } else { name };
     // Equal names are deliberately handed out at DIFFERENT addresses: each distinct name has
     // three leaked copies and successive calls rotate through them, so library code that
     // compared dimension names by pointer instead of by text would be exposed, while the
@@ -172,7 +198,7 @@ pub fn show_names(v: &[&str]) -> String {
     if v.is_empty() {
         "-".to_string()
     } else {
-        v.join(",")
+        v.iter().map(|n| if n.is_empty() { EMPTY_NAME } else { n }).collect::<Vec<_>>().join(",")
     }
 }
 
@@ -180,7 +206,10 @@ pub fn show_shape(v: &[(&str, usize)]) -> String {
     if v.is_empty() {
         "-".to_string()
     } else {
-        v.iter().map(|(n, l)| format!("{}:{}", n, l)).collect::<Vec<_>>().join(",")
+        v.iter()
+            .map(|(n, l)| format!("{}:{}", if n.is_empty() { EMPTY_NAME } else { n }, l))
+            .collect::<Vec<_>>()
+            .join(",")
     }
 }
 
